@@ -76,7 +76,7 @@ func findSel(name string) harness.SelSpec {
 func c02Check(d *harness.DAG, sel harness.SelSpec, split harness.Split) (string, string, string) {
 	qs, rs := d.Stores(split)
 	ref := harness.Reference(d.Root, sel.Node, harness.RefOpts{Local: qs, Remote: rs, RemoteNeedsPath: true})
-	obs, _ := runExchange(vsched.Config{}, d, sel, split, nil, nil)
+	obs, _ := runExchange(vsched.Config{Fast: true}, d, sel, split, nil, nil)
 	class := fmt.Sprintf("visits=%d missing=%d remote=%d rootmiss=%v", len(ref.Visits), len(ref.Missing), len(ref.Store.Log), ref.RootMiss)
 	if obs.Panic != "" {
 		return "panic", obs.Panic, class
